@@ -331,6 +331,16 @@ class FortranCodegen(Stringifier):
         text = ', '.join(self.visit_all(as_tuple(o.text), **kwargs)) if o.text else ''
         return self.format_line(keyword, str(text).lstrip())
 
+    def visit_CycleStmt(self, o, **kwargs):
+        """
+        Format ``CYCLE [construct-name]`` statements.
+        """
+        if o.construct_name:
+            return self.format_line(f'{o.keyword} ', o.construct_name)
+        return self.visit_GenericStmt(o, **kwargs)
+
+    visit_ExitStmt = visit_CycleStmt
+
     def visit_PrintStmt(self, o, **kwargs):
         """
         Format ``PRINT`` statements.
